@@ -194,3 +194,158 @@ fn sink_counts() {
     acpi_tables::facs::FACS::new().to_aml_bytes(&mut c);
     assert_eq!(c.0, 64);
 }
+
+// ---------------------------------------------------------------- C18: refused, never wrapped
+fn refuses<F: FnOnce() -> Vec<u8> + std::panic::UnwindSafe>(f: F) -> bool {
+    std::panic::catch_unwind(f).is_err()
+}
+
+#[test]
+fn c18_package_with_256_elements_is_refused() {
+    use acpi_tables::aml::*;
+    assert!(refuses(|| {
+        let kids: Vec<&dyn Aml> = vec![&ZERO as &dyn Aml; 256];
+        bytes(&Package::new(kids))
+    }));
+    assert!(refuses(|| {
+        let mut pb = PackageBuilder::new();
+        for _ in 0..256 {
+            pb.add_element(&ZERO);
+        }
+        bytes(&pb)
+    }));
+    // 255 is representable
+    let kids: Vec<&dyn Aml> = vec![&ZERO as &dyn Aml; 255];
+    assert_eq!(bytes(&Package::new(kids))[3], 255);
+}
+
+#[test]
+fn c18_path_with_256_segments_is_refused() {
+    let s = vec!["ABCD"; 256].join(".");
+    assert!(refuses(move || bytes(&acpi_tables::aml::Path::new(&s))));
+    let s = vec!["ABCD"; 255].join(".");
+    assert_eq!(bytes(&acpi_tables::aml::Path::new(&s))[1], 255);
+}
+
+#[test]
+fn c18_method_with_more_than_7_args_is_refused() {
+    use acpi_tables::aml::*;
+    assert!(refuses(|| bytes(&Method::new("MTHD".into(), 8, false, vec![]))));
+    assert!(refuses(|| bytes(&Method::new("MTHD".into(), 0x17, true, vec![]))));
+    assert_eq!(bytes(&Method::new("MTHD".into(), 7, false, vec![]))[6], 7);
+}
+
+#[test]
+fn c18_field_width_of_2_pow_28_is_refused() {
+    use acpi_tables::aml::*;
+    let mk = |w: usize| Field::new("FLD0".into(), FieldAccessType::Any, FieldLockRule::NoLock, FieldUpdateRule::Preserve, vec![FieldEntry::Reserved(w)]);
+    assert!(refuses(move || bytes(&mk(1 << 28))));
+    assert!(refuses(move || bytes(&mk(usize::MAX / 2))));
+    let v = bytes(&mk((1 << 28) - 1));
+    assert_eq!(&v[9..13], &[0xcf, 0xff, 0xff, 0xff]);
+}
+
+#[test]
+fn c18_pptt_processor_node_longer_than_255_bytes_is_refused() {
+    use acpi_tables::pptt::*;
+    let mut t = PPTT::new([0; 6], [0; 8], 0);
+    let h = t.add_cache(CacheNodeBuilder::default().to_node());
+    let mk = move |n: usize| {
+        let mut p = ProcessorNode::new(None, 1);
+        for _ in 0..n {
+            p = p.add_cache(&h);
+        }
+        p
+    };
+    assert!(refuses(move || bytes(&mk(59))));
+    let v = bytes(&mk(58));
+    assert_eq!(v[1] as usize, v.len());
+}
+
+#[test]
+fn c18_cxims_with_256_bitmaps_is_refused() {
+    use acpi_tables::cedt::*;
+    assert!(refuses(|| {
+        let mut x = XorInterleaveMath::new(InterleaveGranularity::Granularity256b);
+        for _ in 0..256 {
+            x.add_xormap(0);
+        }
+        bytes(&x)
+    }));
+}
+
+#[test]
+fn c18_address_range_with_unrepresentable_size_is_refused() {
+    use acpi_tables::aml::*;
+    assert!(refuses(|| bytes(&AddressSpace::new_io(0x2140u16, 0x00bfu16, None))));
+    assert!(refuses(|| bytes(&AddressSpace::new_memory(AddressSpaceCacheable::Cacheable, true, 0u32, u32::MAX, None))));
+    assert!(refuses(|| bytes(&AddressSpace::new_io(9355761751539569413u64, 5331267611432300040u64, None))));
+    let v = bytes(&AddressSpace::new_bus_number(0u16, 0xffu16));
+    assert_eq!(&v[14..16], &[0x00, 0x01]);
+}
+
+#[test]
+fn c18_slit_too_large_for_its_length_field_is_refused() {
+    assert!(refuses(|| bytes(&acpi_tables::slit::SLIT::new([0; 6], [0; 8], 0, 65536))));
+    assert!(refuses(|| bytes(&acpi_tables::slit::SLIT::new([0; 6], [0; 8], 0, 0x1_0001))));
+}
+
+#[test]
+fn c18_rhct_isa_string_of_64k_is_refused() {
+    let s: &'static str = Box::leak("a".repeat(65536).into_boxed_str());
+    assert!(refuses(move || {
+        let mut t = acpi_tables::rhct::RHCT::new([0; 6], [0; 8], 0, 1);
+        t.add_isa_string(s);
+        bytes(&t)
+    }));
+}
+
+#[test]
+fn c18_hmat_65536_smbios_handles_are_refused() {
+    use acpi_tables::hmat::*;
+    assert!(refuses(|| {
+        let mut m = MemorySideCache::new(0, 0, CacheLevel::One, CacheLevel::One, Associativity::None, WritePolicy::None, 64);
+        for i in 0..65536u32 {
+            m.add_smbios_handle(i as u16);
+        }
+        bytes(&m)
+    }));
+}
+
+#[test]
+fn c18_viot_handle_offset_past_16_bits_is_refused() {
+    use acpi_tables::viot::*;
+    assert!(refuses(|| {
+        let mut t = VIOT::new([0; 6], [0; 8], 0);
+        for _ in 0..4094 {
+            t.add_virtio_mmio_iommu(VirtIoMmioIommu::new(0));
+        }
+        // 48 + 4094*16 = 65552 > 65535: the next handle cannot be represented
+        let h = t.add_virtio_mmio_iommu(VirtIoMmioIommu::new(0));
+        t.add_mmio_endpoint(MmioEndpoint::new(0, 0, &h));
+        bytes(&t)
+    }));
+}
+
+#[test]
+fn c18_rqsc_controller_longer_than_64k_is_refused() {
+    use acpi_tables::rqsc::*;
+    assert!(refuses(|| {
+        let mut q = QoSController::new(ControllerType::Capacity, acpi_tables::gas::GAS::default(), 0, 0, 0);
+        q.add_resource(ResourceStructure::new(ResourceType::Cache, 0, ResourceID::VendorSpecific(9, vec![0; 40000])));
+        q.add_resource(ResourceStructure::new(ResourceType::Cache, 0, ResourceID::VendorSpecific(9, vec![0; 40000])));
+        bytes(&q)
+    }));
+    assert!(refuses(|| bytes(&ResourceStructure::new(ResourceType::Cache, 0, ResourceID::VendorSpecific(9, vec![0; 70000])))));
+}
+
+#[test]
+fn c18_rimt_65536_wires_or_mappings_are_refused() {
+    use acpi_tables::rimt::*;
+    assert!(refuses(|| {
+        let wires: Vec<InterruptWire> = (0..8192).map(|i| InterruptWire::new(i, false, false, 0)).collect();
+        // 32 + 8*8192 = 65568 > 65535
+        bytes(&Iommu::new(0, None, None, None, Some(wires)))
+    }));
+    assert!(refuses(|| bytes(&Platform::new(0, "x".repeat(70000), None))));
+}
